@@ -11,6 +11,7 @@ discussion on why line wrapping this way is convenient.)
 
 from __future__ import annotations
 
+import re
 from textwrap import dedent
 
 from flowmark.formats.flowmark_markdown import ListSpacing, flowmark_markdown
@@ -31,6 +32,9 @@ from flowmark.typography.smartquotes import smart_quotes
 
 def split_sentences_no_min_length(text: str) -> list[str]:
     return split_sentences_regex(text, min_length=0)
+
+
+_LEADING_BLANK_LINES_RE = re.compile(r"\A(?:[^\S\n]*\n)+")
 
 
 def fill_markdown(
@@ -87,9 +91,12 @@ def fill_markdown(
         markdown_text = content
 
     if dedent_input:
-        markdown_text = dedent(markdown_text).strip()
+        markdown_text = dedent(markdown_text)
 
-    markdown_text = markdown_text.strip() + "\n"
+    # Drop empty lines at the start and whitespace at the end, but keep the indentation of
+    # the first line: four spaces there make an indented code block (with `.strip()` the
+    # document "    code" + blank line + "text" lost its code block).
+    markdown_text = _LEADING_BLANK_LINES_RE.sub("", markdown_text).rstrip() + "\n"
 
     # Preprocess: ensure proper blank lines around block content within tags.
     # This must happen before parsing to prevent CommonMark lazy continuation
